@@ -144,6 +144,41 @@ def faults():
         return ocp
     F["unknown-grid-in-subject_to"] = bad_grid_constraint
 
+    # ... at every kind of subject_to position: boundary constraints and constraints on global quantities as well
+    def bad_grid_at(which):
+        def f(m):
+            ocp, s = _ok(m)
+            e = {"t0": lambda: ocp.at_t0(s["x"][0]) == 0, "tf": lambda: ocp.at_tf(s["x"][0]) <= 2, "integrator-like": lambda: s["x"][0] + s["u"] <= 3}[which]()
+            ocp.subject_to(e, grid="no_such_grid")
+            return ocp
+        return f
+    for which in ("t0", "tf", "integrator-like"):
+        F["unknown-grid-in-subject_to-%s" % which] = bad_grid_at(which)
+
+    def bad_grid_objective(kind):
+        def f(m):
+            ocp, s = _ok(m)
+            e = s["x"][0] * s["u"]
+            ocp.add_objective(ocp.integral(e, grid="no_such_grid") if kind == "integral" else ocp.sum(e, grid="no_such_grid"))
+            return ocp
+        return f
+    F["unknown-grid-in-integral"] = bad_grid_objective("integral")
+    F["unknown-grid-in-sum"] = bad_grid_objective("sum")
+
+    def bad_grid_symbol(kind):
+        def f(m):
+            ocp, s = _ok(m)
+            if kind == "variable":
+                w = ocp.variable(grid="no_such_grid")
+            else:
+                w = ocp.parameter(grid="no_such_grid")
+                ocp.set_value(w, 1.0)
+            ocp.subject_to(s["x"][0] + w <= 3)
+            return ocp
+        return f
+    F["unknown-grid-in-variable"] = bad_grid_symbol("variable")
+    F["unknown-grid-in-parameter"] = bad_grid_symbol("parameter")
+
     def bad_grid_sample(m):
         ocp, s = _ok(m)
         ocp.sample(s["x"][0], grid="nodes")
